@@ -64,3 +64,14 @@ check('C05',
       'with reads after each construct are compared with an environment-passing interpreter (XPST0008 for unbound reads).',
       'node results compared by position in the document computed by the harness; current date/time fixed; reference mc/models/seqlang.py',
       'DESIGN.md section 3 C05')
+check('C13',
+      'explicit-state BFS to a fixpoint over the real UnicodeSubset/CharacterClass objects; exhaustive table sweep over all code points',
+      'Breadth-first search from the empty, the full and three seeded subsets over every add/discard of points and ranges, update/'
+      'difference_update with strings and lists, |= -= &= ^= with seven operands, complement, copy and clear, until no new concrete list '
+      'representation appears (quick: 7-symbol universe, 128 abstract sets; thorough: 10 symbols, 1024 abstract sets, ~90k concrete states); '
+      'every state is checked against the abstract set (membership, canonical sorted/merged form, len, iteration, reversed, complement) and '
+      'every transition against the set operation. Same for CharacterClass histories of depth 3. Then all 0x110000 code points x all '
+      'categories against unicodedata, minors partition the code space, major = union of minors, blocks pairwise disjoint; every installable '
+      'Unicode version gets the structural checks (thorough).',
+      'the block between the low and the high probe points is only added/removed as a whole; value-equality of tables only for the interpreter\'s Unicode version',
+      'DESIGN.md section 3 C13')
